@@ -28,6 +28,58 @@ func SingleResolution(b types.Block, bs consensus.V1BlockSupplement, au consensu
 			return fmt.Errorf("siacoin output %v is created %d times by one block", id, n)
 		}
 	}
+	// every output the block's transactions spend is reported spent exactly once, and nothing else is (an output
+	// created and spent inside the block must not come out of it as unspent)
+	spentIn := map[types.Hash256]int{}
+	for _, txn := range b.Transactions {
+		for _, in := range txn.SiacoinInputs {
+			spentIn[types.Hash256(in.ParentID)]++
+		}
+		for _, in := range txn.SiafundInputs {
+			spentIn[types.Hash256(in.ParentID)]++
+		}
+	}
+	for _, txn := range b.V2Transactions() {
+		for _, in := range txn.SiacoinInputs {
+			spentIn[types.Hash256(in.Parent.ID)]++
+		}
+		for _, in := range txn.SiafundInputs {
+			spentIn[types.Hash256(in.Parent.ID)]++
+		}
+	}
+	reported := map[types.Hash256]bool{}
+	for _, d := range au.SiacoinElementDiffs() {
+		id := types.Hash256(d.SiacoinElement.ID)
+		if d.Spent {
+			if reported[id] {
+				return fmt.Errorf("siacoin output %v is reported spent twice by one block", d.SiacoinElement.ID)
+			}
+			reported[id] = true
+		}
+		if d.Spent != (spentIn[id] > 0) {
+			return fmt.Errorf("siacoin output %v: the block spends it %d time(s) but the update reports spent=%v (created=%v)", d.SiacoinElement.ID, spentIn[id], d.Spent, d.Created)
+		}
+	}
+	for _, d := range au.SiafundElementDiffs() {
+		id := types.Hash256(d.SiafundElement.ID)
+		if d.Spent {
+			if reported[id] {
+				return fmt.Errorf("siafund output %v is reported spent twice by one block", d.SiafundElement.ID)
+			}
+			reported[id] = true
+		}
+		if d.Spent != (spentIn[id] > 0) {
+			return fmt.Errorf("siafund output %v: the block spends it %d time(s) but the update reports spent=%v (created=%v)", d.SiafundElement.ID, spentIn[id], d.Spent, d.Created)
+		}
+	}
+	for id, k := range spentIn {
+		if k != 1 {
+			return fmt.Errorf("output %v is spent %d times by the transactions of one accepted block", id, k)
+		}
+		if !reported[id] {
+			return fmt.Errorf("output %v is spent by the block but not reported spent in the update", id)
+		}
+	}
 	proven := map[types.FileContractID]int{}
 	for _, txn := range b.Transactions {
 		for _, sp := range txn.StorageProofs {
